@@ -5,8 +5,9 @@ import HeimdallModel.Model.Conc
 `Gen/RepoProtocol.lean` is regenerated from the current source on every run (`/verif/extract/proto`): per method the
 ordered lock / unlock / deferred unlock / shared-field read / write / clone / receiver-call / return events.
 `abstract` maps the raw events to the alphabet of the machine, `canon` removes what is not observable for the
-protocol (reads made while `knownRulesMutex` is held, repeated compute-or-fail blocks, repeated writes of the known
-rules).  The obligations (`Props/C07.lean`): the canonical event list of every writer method equals
+protocol (accesses made while the lock protecting the field is held, guards that only return, repeated
+compute-or-fail blocks, repeated writes of the known rules) and turns everything else that touches shared state —
+on some paths only, outside the locks, through a function the tree is handed to — into `other`.  The obligations (`Props/C07.lean`): the canonical event list of every writer method equals
 `writerProtocol`, that of `FindRule` equals `readerProtocol`, and these are exactly the labels of the machine's
 transitions (`writerEdges`, `readerEdges`).
 -/
@@ -16,6 +17,9 @@ inductive AEv where
   | lockK | deferUnlockK | readKnown | cloneIndex | compute | returnErr | writeKnown
   | lockT | writeIndex | unlockT | returnOk | unlockK
   | rlockT | deferRUnlockT | search | runlockT
+  | readIndex | passKnown            -- dropped when made under the lock that protects the field
+  | openIf | openBlock | close       -- block structure of the source
+  | earlyOk                          -- a conditional `return nil`
   | other (s : String)
 deriving DecidableEq, Repr
 
@@ -26,22 +30,28 @@ def hasSuffix (suf s : String) : Bool := suf.toList.reverse.isPrefixOf s.toList.
 /-- The extractor prints shared fields by role (`$K` the `sync.Mutex`, `$T` the `sync.RWMutex`, `$index` the tree,
     `$known` the slice of known rules, `$default` the default rule) and the local holding the result of
     `$index.Clone()` as `$clone`, whatever they are called in the source; helper methods touching shared state are
-    inlined.  A call of a receiver method on the clone is the computation on the private copy, whatever its name. -/
+    inlined.  A call of a receiver method on the clone is the computation on the private copy, whatever its name.
+    Everything that is not listed here — a method of the tree other than `Clone`/`Find`, the tree handed to a
+    function (`pass $index …`), stored in a local (`alias …`), a goroutine, a write of the default rule — is
+    `other` and fails the obligations. -/
 def abstractEv (s : String) : Option AEv :=
   if s = "lock $K" then some .lockK
   else if s = "defer unlock $K" then some .deferUnlockK
   else if s = "read $known" then some .readKnown
-  else if s = "read $index" then none                    -- always followed by the call that uses it
+  else if hasPrefix "pass $known " s then some .passKnown
+  else if s = "read $index" then some .readIndex
   else if s = "call $index.Clone" then some .cloneIndex
   else if s = "bind $clone $index.Clone" then none
   else if hasPrefix "call " s ∧ hasSuffix " $clone" s ∧ ¬ hasPrefix "call $" s then some .compute
-  else if s = "if {" ∨ s = "}" then none
-  else if s = "return var" then some .returnErr
+  else if s = "if {" then some .openIf
+  else if s = "else {" ∨ s = "loop {" ∨ s = "switch {" ∨ s = "case {" then some .openBlock
+  else if s = "}" then some .close
+  else if s = "return nonnil" then some .returnErr
   else if hasPrefix "write $known " s then some .writeKnown
   else if s = "lock $T" then some .lockT
   else if s = "write $index $clone" then some .writeIndex
   else if s = "unlock $T" then some .unlockT
-  else if s = "return nil" ∨ s = "return value" then some .returnOk
+  else if s = "return nil" ∨ s = "return" then some .returnOk
   else if s = "rlock $T" then some .rlockT
   else if s = "defer runlock $T" then some .deferRUnlockT
   else if s = "call $index.Find" then some .search
@@ -50,12 +60,61 @@ def abstractEv (s : String) : Option AEv :=
 
 def abstract (evs : List String) : List AEv := evs.filterMap abstractEv
 
-/-- drop reads of the known rules made while `knownRulesMutex` is held -/
-def stripProtected : Bool → List AEv → List AEv
-  | _, [] => []
-  | held, .lockK :: rest => .lockK :: stripProtected true rest
-  | held, .readKnown :: rest => if held then stripProtected held rest else .readKnown :: stripProtected held rest
-  | held, e :: rest => e :: stripProtected held rest
+/-- Drop accesses made under the lock that protects the field: the known rules (read, handed to `append`,
+    `slices.DeleteFunc`, a filter) while `$K` is held, the pointer to the tree while `$K` or `$T` is held.  `$K` and a
+    read-locked `$T` are released by a deferred unlock, i.e. held to the end; a write-locked `$T` until `unlock $T`.
+    An access outside stays in the list and fails the obligation. -/
+def stripProtected : Bool → Bool → List AEv → List AEv
+  | _, _, [] => []
+  | _, t, .lockK :: rest => .lockK :: stripProtected true t rest
+  | k, _, .rlockT :: rest => .rlockT :: stripProtected k true rest
+  | k, _, .lockT :: rest => .lockT :: stripProtected k true rest
+  | k, _, .unlockT :: rest => .unlockT :: stripProtected k false rest
+  | k, t, .readKnown :: rest => if k then stripProtected k t rest else .readKnown :: stripProtected k t rest
+  | k, t, .passKnown :: rest => if k then stripProtected k t rest else .passKnown :: stripProtected k t rest
+  | k, t, .readIndex :: rest => if k || t then stripProtected k t rest else .readIndex :: stripProtected k t rest
+  | k, t, e :: rest => e :: stripProtected k t rest
+
+def AEv.isExit : AEv → Bool
+  | .returnOk | .returnErr | .earlyOk => true
+  | _ => false
+
+/-- what a block of the source contributes: nothing if it contains no protocol event; an exit if it only returns
+    (`if err != nil { return err }`, a guard returning early, nested guards); anything else — a lock, a write, the
+    clone, the computation made only on some paths — is not the protocol -/
+def blockEvent (isIf : Bool) (body : List AEv) : List AEv :=
+  if body.isEmpty then []
+  else if isIf && body.all AEv.isExit then
+    (if body.all (· == .returnErr) then [.returnErr] else [.earlyOk])
+  else if body.all AEv.isExit then [.other "exit inside a loop, else or case block"]
+  else [.other "protocol step inside a conditional block or loop"]
+
+/-- fold the block structure (`fuel` ≥ length of the list); returns the events of the sequence up to its closing
+    brace and what follows it -/
+def foldBlocks : Nat → List AEv → List AEv × List AEv
+  | 0, l => ([.other "fuel"], l)
+  | _ + 1, [] => ([], [])
+  | _ + 1, .close :: rest => ([], rest)
+  | n + 1, .openIf :: rest =>
+      let (body, after) := foldBlocks n rest
+      let (tail, fin) := foldBlocks n after
+      (blockEvent true body ++ tail, fin)
+  | n + 1, .openBlock :: rest =>
+      let (body, after) := foldBlocks n rest
+      let (tail, fin) := foldBlocks n after
+      (blockEvent false body ++ tail, fin)
+  | n + 1, e :: rest =>
+      let (tail, fin) := foldBlocks n rest
+      (e :: tail, fin)
+
+def blocks (l : List AEv) : List AEv := (foldBlocks (l.length + 1) l).1
+
+/-- an early `return nil` before anything was cloned or written leaves the repository as it was -/
+def dropEarly : List AEv → List AEv
+  | [] => []
+  | .cloneIndex :: rest => .cloneIndex :: rest
+  | .earlyOk :: rest => dropEarly rest
+  | e :: rest => e :: dropEarly rest
 
 /-- collapse repeated `compute; returnErr` blocks, repeated writes of the known rules and repeated returns -/
 def collapse : List AEv → List AEv
@@ -65,7 +124,18 @@ def collapse : List AEv → List AEv
   | e :: rest => e :: collapse rest
   | [] => []
 
-def canon (evs : List String) : List AEv := collapse (stripProtected false (abstract evs))
+/-- canonical protocol of a writer method -/
+def canon (evs : List String) : List AEv := collapse (dropEarly (blocks (stripProtected false false (abstract evs))))
+
+/-- after the search every way out of the lookup is an exit under the deferred read-unlock -/
+def readerExits : List AEv → List AEv
+  | [] => []
+  | .search :: rest => .search :: (if rest.all AEv.isExit && !rest.isEmpty then [.returnOk] else rest)
+  | e :: rest => e :: readerExits rest
+
+/-- canonical protocol of the lookup -/
+def canonReader (evs : List String) : List AEv :=
+  readerExits (dropEarly (blocks (stripProtected false false (abstract evs))))
 
 def lookupMethod (p : List (String × List String)) (m : String) : List String :=
   ((p.find? (·.1 = m)).map (·.2)).getD ["<missing method>"]
